@@ -20,8 +20,9 @@ def parse_act(tok):
         return ("wake", mode, rev, ids(p[2]) if len(p) == 3 else [], None)
     if k == "detach" and len(p) == 3:
         return ("wake", "a" if p[1] == "a" else "d", False, ids(p[2]), None)
-    if len(p) == 1 and k in ("park", "parkn", "pause", "swap", "end", "enter", "leave"):
-        return ({"swap": "pause"}.get(k, k), None, False, [], None)
+    if len(p) == 1 and k in ("park", "parkn", "pause", "swap", "end", "enter", "leave", "leavex"):
+        # leavex: the callback of install_queue_and_call throws; the statement does not care how the block is left
+        return ({"swap": "pause", "leavex": "leave"}.get(k, k), None, False, [], None)
     if len(p) == 2 and k in ("start", "call", "join") and p[1].isdigit() and len(p[1]) <= 6:
         return (k, None, False, [], int(p[1]))
     return None
@@ -102,6 +103,12 @@ class TraceChecker:
             elif top != c:
                 self.flag("preempt", "coroutine %d ran inside the start() call of coroutine %d after the coroutine it started had "
                           "suspended/finished, although %d itself has neither suspended nor finished" % (c, top, top))
+        elif self.returned and self.loop and self.loop[0] != c and self.st(c) == "queued":
+            # ordinary code dropped one suspend point outside coroutine mode: ONE queue is installed for all its
+            # handles; they were made ready before anything they queue, so each gets its first turn (in order)
+            # before a coroutine from the ready queue is resumed by the flush
+            self.flag("fifo", "coroutine %d was resumed from the ready queue before handle %d of the suspend point dropped by "
+                      "ordinary code, which was made ready earlier, got its first turn" % (c, self.loop[0]))
         self.returned = False
         if self.runner != c:
             # a switch: c must have been made ready (or be a nested starter getting control back)
@@ -321,7 +328,7 @@ class ExecSuite(Suite):
             if r < 0.26:
                 k = rng.choice([1, 1, 2, 2, 3, 4])
                 ids = [rng.choice(others) for _ in range(k)]
-                mode = rng.choice("ddddaaaar")
+                mode = rng.choice("ddddaaaarx")
                 if rng.random() < 0.12:
                     acts.append("gather:%s:%s" % ("a" if mode == "a" else "d", ",".join(map(str, ids))))
                 else:
@@ -381,7 +388,7 @@ class ExecSuite(Suite):
             k = rng.choice([1, 1, 2, 3, n])
             ids = rng.sample(range(n), min(k, n))
             kw = "gather" if rng.random() < 0.1 else "wake"
-            mode = "d" if kw == "gather" else rng.choice("dddr")
+            mode = "d" if kw == "gather" else rng.choice("dddrx")
             return "%s:%s:%s" % (kw, mode, ",".join(map(str, ids)))
 
         if shape in ("block", "mixed") and rng.random() < 0.8:
@@ -392,12 +399,12 @@ class ExecSuite(Suite):
             if x < 0.5:
                 main.append("start:%d" % r)
             elif x < 0.8:
-                main.append("detach:%s:%d" % (rng.choice("ddr"), r))
+                main.append("detach:%s:%d" % (rng.choice("ddrx"), r))
             else:
                 main.append("wake:d:%s" % ",".join(str(i) for i in range(r, roots)))
             if shape in ("block", "mixed") and rng.random() < 0.25:
                 if depth and rng.random() < 0.5:
-                    main.append("leave")
+                    main.append(rng.choice(["leave", "leave", "leavex"]))
                     depth -= 1
                 elif depth < 3:
                     main.append("enter")
@@ -406,15 +413,15 @@ class ExecSuite(Suite):
             main.append(wake_round())
             if shape in ("block", "mixed") and rng.random() < 0.2:
                 if depth and rng.random() < 0.6:
-                    main.append("leave")
+                    main.append(rng.choice(["leave", "leave", "leavex"]))
                     depth -= 1
                 elif depth < 3:
                     main.append("enter")
                     depth += 1
         if depth and rng.random() < 0.7:
-            main += ["leave"] * depth
+            main += [rng.choice(["leave", "leave", "leavex"]) for _ in range(depth)]
             depth = 0
-            if rng.random() < 0.5:
+            if rng.random() < 0.7:
                 main.append(wake_round())
         if rng.random() < 0.15:
             # late script extension (ignored by coroutines that already finished)
@@ -481,7 +488,8 @@ class ExecSuite(Suite):
             i = next(k for k, l in enumerate(lines) if l.startswith("m "))
             lines.insert(i, "m enter")
             if rng.random() < 0.5:
-                lines.append("m leave")
+                lines.append("m " + rng.choice(["leave", "leavex"]))
+                lines.append("m wake:%s:%s" % (rng.choice("dx"), ",".join(map(str, range(n)))))
         lines.append("end")
         return {"id": 0, "lines": lines}
 
